@@ -1,16 +1,24 @@
 use super::types::{BlockChunk, BlockSizeSpec, ESpec, ESpecError, ZLibVariant};
 
+/// Maximum nesting of `b:` / `e:{..}` specs (real specs nest 2-3 levels).
+const MAX_NESTING_DEPTH: usize = 32;
+
 /// Parser for `ESpec` strings
 pub struct Parser<'a> {
     input: &'a str,
     pos: usize,
+    depth: usize,
 }
 
 impl<'a> Parser<'a> {
     /// Create a new parser for the given input
     #[must_use]
     pub const fn new(input: &'a str) -> Self {
-        Self { input, pos: 0 }
+        Self {
+            input,
+            pos: 0,
+            depth: 0,
+        }
     }
 
     /// Parse the input string into an `ESpec`
@@ -93,7 +101,14 @@ impl<'a> Parser<'a> {
 
     /// Parse an `ESpec` from the current position
     fn parse_espec(&mut self) -> Result<ESpec, ESpecError> {
-        match self.peek() {
+        if self.depth >= MAX_NESTING_DEPTH {
+            return Err(ESpecError::InvalidNumber {
+                position: self.pos,
+                error: format!("ESpec nesting exceeds {MAX_NESTING_DEPTH} levels"),
+            });
+        }
+        self.depth += 1;
+        let spec = match self.peek() {
             Some('n') => {
                 self.consume('n')?;
                 Ok(ESpec::None)
@@ -105,7 +120,9 @@ impl<'a> Parser<'a> {
             Some('g') => self.parse_gdeflate(),
             Some(ch) => Err(ESpecError::UnknownType(ch)),
             None => Err(ESpecError::UnexpectedEnd(self.pos)),
-        }
+        };
+        self.depth -= 1;
+        spec
     }
 
     /// Parse `ZLib` compression specification
